@@ -50,17 +50,35 @@ theorem serve_grpc_chain : grpcChainOk tables.serve = true := by decide
     HTTP gateway. -/
 theorem serve_services : servicesOk tables = true := by decide
 
-/-- server.Serve builds every direct client around GripServer with both account interceptors.
-    PARTIAL: the Configure client around `&nullPluginServer{}` (used when plugins are disabled) is
-    built without options; see `serve_gateway_chain_gap`.  Missing for the full statement:
-    `gatewayChainOk tables.serve = true`. -/
-theorem serve_gateway_chain_partial :
-    ∀ c ∈ tables.serve.directClients, c.impl ≠ "&nullPluginServer{}" → clientChained tables.serve c = true := by
-  decide
+/-- server.Serve builds EVERY direct client with both account interceptors (the full statement,
+    since fix c9024ba; it used to fail for the Configure client around `&nullPluginServer{}`, see
+    `serve_gateway_chain_gap`). -/
+theorem serve_gateway_chain : gatewayChainOk tables.serve = true := by decide
 
-/-- The full statement fails for the wiring read from the tree at the time of writing (frozen copy
-    of that entry, so that repairing the code does not break this file; read-only finding
-    C05-nullplugin-unchained). -/
+/-- What the wiring gives over HTTP: for every service of the table, with plugins enabled or not,
+    a unary and a streaming request without valid credentials are both refused (this is the MODEL's
+    answer to the `serve` line of the correspondence run, which asks the real `server.Serve`). -/
+theorem serve_gateway_refuses :
+    ∀ svc ∈ ["Query", "Job", "Edit", "Configure"], ∀ plugins streaming,
+      gatewayRefuses tables.serve plugins svc streaming = true := by decide
+
+/-- In general: a wiring in which every direct client is chained refuses every unauthenticated
+    gateway request for a service that has a client. -/
+theorem chained_wiring_refuses (s : ServeWiring) (h : gatewayChainOk s = true) (plugins : Bool)
+    (svc : String) (streaming : Bool) (hne : (gatewayClients s plugins svc).isEmpty = false) :
+    gatewayRefuses s plugins svc streaming = true := by
+  unfold gatewayRefuses
+  simp only [hne, Bool.not_false, Bool.true_and, List.all_eq_true]
+  intro c hc
+  have hmem : c ∈ s.directClients := (List.mem_filter.1 hc).1
+  have hch := (List.all_eq_true.1 h) c hmem
+  unfold clientChained at hch
+  simp only [Bool.and_eq_true, decide_eq_true_eq] at hch
+  split <;> simp [hch.1, hch.2]
+
+/-- The statement failed for the wiring read from the tree before fix c9024ba (frozen copy of that
+    entry; finding C05-nullplugin-unchained, reproduced over HTTP: `/v1/plugin` and `/v1/driver`
+    answered 200 without credentials). -/
 theorem serve_gateway_chain_gap :
     gatewayChainOk { tables.serve with directClients :=
       [{ ctor := "NewConfigureDirectClient", impl := "&nullPluginServer{}", unaryOpt := none, streamOpt := none }] } = false := by
